@@ -331,6 +331,9 @@ func (g *gen) osm() *osm.OSM {
 		o.Bounds = g.element(6).(*osm.Bounds)
 	}
 	n := g.rng.Intn(5)
+	if g.rng.Intn(8) == 0 {
+		n += 4 + g.rng.Intn(6)
+	}
 	for i := 0; i < n; i++ {
 		k := g.rng.Intn(6)
 		if g.rng.Intn(3) > 0 {
